@@ -16,7 +16,7 @@ func init() { registry["C20"] = propC20 }
 
 func propC20() *Property {
 	return &Property{
-		ID: "C20",
+		ID:          "C20",
 		Explanation: "Static shape, guard and identity-flow rules on the media hook. Decided: (R1) the only process-spawning call sites in the module are exec.Command and the Cmd's run method in ui.openExternally, and the program is not a constant shell; (R2) the argv handed to exec.Command is element 0 / the tail of a slice freshly made with the configured hook's length and filled by copy from config.Parsed.Media.Hook, which is itself never written; (R3) every other write into that slice is at an index known to be non-zero, on the equality edge of the element itself against a constant placeholder, and stores — by identity, no string operation in between — the link parameter for %url and the Essence/Supertype/Subtype field of the media type for %mimetype/%supertype/%subtype; the placeholder constants are exactly those documented in readme.md; (R4) Stdin is set only when no %url placeholder was substituted and then to a reader over the link itself; (R5) the media type is non-nil at every call of openExternally (every producer of a (link, type, true) triple returns a non-nil type). Not decided: what the operating system does with argv; the link's own content (deliberately verbatim).",
 		Assumptions: []string{
 			"os/exec.Command passes its arguments to execve without interpretation",
@@ -66,10 +66,10 @@ func (h *hookShape) argvOf(P *Program) (outer, inner ssa.Value) {
 		sc := call.Call.StaticCallee()
 		var bl, bm *ssa.Parameter
 		for p, a := range env {
-			if a == ssa.Value(h.link) {
+			if unwrapLoad(a) == ssa.Value(h.link) {
 				bl = p
 			}
-			if a == ssa.Value(h.media) {
+			if unwrapLoad(a) == ssa.Value(h.media) {
 				bm = p
 			}
 		}
@@ -194,7 +194,7 @@ func c20R2(c *Ctx) {
 	if isMake {
 		for _, r := range refs(mk) {
 			if call, ok := r.(*ssa.Call); ok {
-				if b, ok := call.Call.Value.(*ssa.Builtin); ok && b.Name() == "copy" && call.Call.Args[0] == ssa.Value(mk) {
+				if b, ok := call.Call.Value.(*ssa.Builtin); ok && b.Name() == "copy" && unwrapLoad(call.Call.Args[0]) == ssa.Value(mk) {
 					before := false
 					if h.build == h.fn {
 						before = dominatesInstr(call, h.command)
@@ -329,11 +329,11 @@ func c20R3(c *Ctx) {
 			want, known := placeholderMap[ph]
 			got := ""
 			switch {
-			case st.Val == ssa.Value(h.bLink):
+			case unwrapLoad(st.Val) == ssa.Value(h.bLink):
 				got = "link"
 			default:
 				if u, ok := st.Val.(*ssa.UnOp); ok && u.Op == token.MUL {
-					if fa, ok := u.X.(*ssa.FieldAddr); ok && fa.X == ssa.Value(h.bMedia) {
+					if fa, ok := u.X.(*ssa.FieldAddr); ok && unwrapLoad(fa.X) == ssa.Value(h.bMedia) {
 						got = fieldOf(fa).Name()
 					}
 				}
@@ -401,7 +401,7 @@ func c20R4(c *Ctx) {
 				}
 				good, sawTrue := true, false
 				for k, ed := range ph.Edges {
-					if ed == ssa.Value(ph) {
+					if unwrapLoad(ed) == ssa.Value(ph) {
 						continue
 					}
 					cst, ok := ed.(*ssa.Const)
@@ -423,7 +423,7 @@ func c20R4(c *Ctx) {
 						// and that block stores the link into argv
 						stores := false
 						for _, pin := range pred.Instrs {
-							if pst, ok := pin.(*ssa.Store); ok && pst.Val == ssa.Value(h.bLink) {
+							if pst, ok := pin.(*ssa.Store); ok && unwrapLoad(pst.Val) == ssa.Value(h.bLink) {
 								stores = true
 							}
 						}
@@ -440,7 +440,7 @@ func c20R4(c *Ctx) {
 			// the reader wraps the link by identity
 			okVal := false
 			if mi, ok := st.Val.(*ssa.MakeInterface); ok {
-				if call, ok := mi.X.(*ssa.Call); ok && (isLibCall(&call.Call, "strings", "", "NewReader") || isLibCall(&call.Call, "bytes", "", "NewBufferString")) && call.Call.Args[0] == ssa.Value(h.link) {
+				if call, ok := mi.X.(*ssa.Call); ok && (isLibCall(&call.Call, "strings", "", "NewReader") || isLibCall(&call.Call, "bytes", "", "NewBufferString")) && unwrapLoad(call.Call.Args[0]) == ssa.Value(h.link) {
 					okVal = true
 				}
 			}
